@@ -13,7 +13,7 @@
 From Coq Require Import ZArith List Bool String Sorting.Sorted.
 From KV Require Import Base.Sx Base.Str Base.SelSlice Gen.Generated Model.Select Model.Scans
   Proofs.SelectBaseP Proofs.SelectP Proofs.SelectLawsP Proofs.ScansP.
-From KV Require Model.Categorical Proofs.ScansSegP.
+From KV Require Model.Categorical Proofs.ScansSegP Model.ScansConcat Proofs.ScansConcatP.
 Import ListNotations.
 Open Scope Z_scope.
 
@@ -133,3 +133,63 @@ Theorem C03_example :
        /\ positions (tk sf) = [5; 6; 7; 8; 9] /\ fk sf = fk ex_s /\ bk sf = bk ex_s.
 Proof. exact ex_facts. Qed.
 Print Assumptions C03_example.
+
+(* ---------------------------------------------------------------------------------------------------------------
+   CONCATENATED DATA SETS (katdal/concatdata.py:ConcatenatedDataSet; Model/ScansConcat.v, Proofs/ScansConcatP.v).
+   A ConcatenatedDataSet inherits select(), scans() and compscans() from DataSet, so everything above applies to it
+   with the observation read from the concatenated sensors; what it adds is the run-on numbering of the parts' scan
+   and compscan index sensors.
+
+   run_on_parts w parts  = the parts' index sensors (chronological order) after the loop of __init__: unique values
+                           shifted by the running offset, which starts at cc_*_start and advances per part by the
+                           translated rule cc_*_advance = len(unique_values), the number of scans the part HAS.
+   run_on_dumps w parts  = their per-dump index lists, one after the other = per-dump indices of the concatenation.
+   concat_index w parts  = the index sensor of the concatenation (concatenate_categorical, no allow_repeats).
+   separated ls          = every index in an earlier list is smaller than every index in a later list. *)
+
+(* tie: the statements of the loop found in /repo's concatdata.py (sort key, sensors, initial offsets, shift,
+   advance) are the ones the model runs *)
+Theorem C03_concat_source_skeleton :
+  cc_sort_key = "start_time"%string
+  /\ cc_scan_sensor = "Observation/scan_index"%string /\ cc_compscan_sensor = "Observation/compscan_index"%string
+  /\ cc_scan_start = 0 /\ cc_compscan_start = 0
+  /\ cc_scan_shift = "index+start"%string /\ cc_compscan_shift = "index+start"%string
+  /\ cc_scan_advance = "len(unique_values)"%string /\ cc_compscan_advance = "len(unique_values)"%string.
+Proof. exact ScansConcatP.cc_skeleton_ok. Qed.
+Print Assumptions C03_concat_source_skeleton.
+
+(* NUMBERING OF A CONCATENATION.  For EVERY list of parts (any number, any lengths) whose scan_state / label series
+   are well formed and start at dump 0, with the index sensors the format classes build from them
+   (CategoricalData(range(n), events)), and for both kinds of index: the per-dump indices of the concatenation are
+   numbered consecutively from zero in time order; no index is shared by dumps of different parts and later parts
+   have larger indices (collision-free, so a scan of the concatenation is one physical scan of one part); every dump
+   of every part gets exactly one index; and the concatenated index sensor exists, is well formed, starts at dump 0
+   and expands to exactly this per-dump list. *)
+Theorem C03_concat_numbering : forall w (cs : list cdz),
+  Forall (fun c => Categorical.WF c /\ Categorical.start0 c /\ Categorical.idx c <> []) cs ->
+  let parts := map index_cd cs in
+  numbered (ScansConcat.run_on_dumps w parts) = true
+  /\ ScansConcat.separated (map (Categorical.expand zd) (ScansConcat.run_on_parts w parts))
+  /\ List.length (ScansConcat.run_on_dumps w parts) = list_sum (map Categorical.ndumps cs)
+  /\ (forall c, ScansConcat.concat_index w parts = Some c ->
+        Categorical.WF c /\ Categorical.start0 c /\ Categorical.expand zd c = ScansConcat.run_on_dumps w parts).
+Proof. exact ScansConcatP.concat_numbering_formats. Qed.
+Print Assumptions C03_concat_numbering.
+
+(* the decidable form of `separated` evaluated on the model output for every generated concatenation means what it
+   says *)
+Theorem C03_concat_separatedb_sound : forall ls, ScansConcat.separatedb ls = true -> ScansConcat.separated ls.
+Proof. exact ScansConcatP.separatedb_sound. Qed.
+Print Assumptions C03_concat_separatedb_sound.
+
+(* non-vacuity, and why the offset has to advance by the number of scans a part HAS: two parts of two scans each
+   give 0 0 1 1 2 2 3 3; advancing the offset by one instead (e.g. because only one scan of the first part was
+   selected when it was concatenated) gives 0 0 1 1 1 1 2 2 - two physical scans share number 1 *)
+Theorem C03_concat_example :
+  ScansConcat.index_part ScansConcatP.ex_part
+  /\ ScansConcat.run_on_dumps WScans [ScansConcatP.ex_part; ScansConcatP.ex_part] = [0; 0; 1; 1; 2; 2; 3; 3]
+  /\ List.concat (map (Categorical.expand zd) [ScansConcat.shift_cd 0 ScansConcatP.ex_part; ScansConcat.shift_cd 1 ScansConcatP.ex_part])
+     = [0; 0; 1; 1; 1; 1; 2; 2]
+  /\ ScansConcat.separatedb (map (Categorical.expand zd) [ScansConcat.shift_cd 0 ScansConcatP.ex_part; ScansConcat.shift_cd 1 ScansConcatP.ex_part]) = false.
+Proof. exact (conj ScansConcatP.ex_index_part (conj ScansConcatP.ex_run_on ScansConcatP.ex_too_small_collides)). Qed.
+Print Assumptions C03_concat_example.
